@@ -161,7 +161,7 @@ func (P *Program) runReplayTest(pkgPath, body, dir, oblName string) (string, boo
 	case yqModule:
 		pkgDir, pkgName = ".", "main"
 	}
-	src := "package " + pkgName + "\n\nimport (\n\t\"testing\"\n\t\"fmt\"\n\t\"math/big\"\n\t\"strings\"\n\t\"os\"\n)\n\nvar _ = fmt.Sprint\nvar _ = big.NewInt\nvar _ = strings.Contains\nvar _ = os.Getenv\n\n" +
+	src := "package " + pkgName + "\n\nimport (\n\t\"testing\"\n\t\"fmt\"\n\t\"math/big\"\n\t\"strings\"\n\t\"os\"\n\t\"io\"\n)\n\nvar _ = fmt.Sprint\nvar _ = big.NewInt\nvar _ = strings.Contains\nvar _ = os.Getenv\nvar _ = io.Discard\n\n" +
 		"func TestVerifReplay(t *testing.T) {\n" + body + "\n}\n"
 	testFile := filepath.Join(dir, "zz_verif_replay_"+fmt.Sprint(hashString(oblName))+"_test.go")
 	os.WriteFile(testFile, []byte(src), 0o644)
